@@ -364,6 +364,21 @@ pub fn rand_adf(rng: &mut StdRng, n: usize, id: String) -> AdfCase {
                 });
             }
         }
+        4 => {
+            // self-referential conditions whose own statement is NOT the top variable of its diagram, mixed with plain links
+            for i in 0..n {
+                let j = rng.gen_range(0..n);
+                let k = rng.gen_range(0..n);
+                let inner = if rng.gen_bool(0.5) { and(Ast::Atom(i), Ast::Atom(k)) } else { or(Ast::Atom(i), not(Ast::Atom(k))) };
+                asts.push(match rng.gen_range(0..5) {
+                    0 => or(Ast::Atom(j), inner),
+                    1 => and(Ast::Atom(j), inner),
+                    2 => Ast::Atom(j),
+                    3 => not(Ast::Atom(j)),
+                    _ => xor(Ast::Atom(j), inner),
+                });
+            }
+        }
         _ => {
             let d = rng.gen_range(1..=3);
             for _ in 0..n {
